@@ -4,9 +4,9 @@
             cpu(low high plow phigh) mem(low high plow phigh) pods(low high plow phigh)   (percent, -1 = absent pair)
             wcpu wmem wpods
             n   then n x (capCpuMilli capMemBytes capPods member)
-            R   then R rounds, each: n x (unsched fresh sysCpu sysMem np  then np x (pid prio hasMetric cpu mem filt evok))
+            R   then R rounds, each: n x (unsched fresh sysCpu sysMem np  then np x (pid ns prio hasMetric cpu mem filt evok))   ns: 0,1 evictable namespaces, 2,3 excluded ones
    observable, per round:
-            k   then k x (node pod)      the Evict calls in order (node = 1-based index)
+            k   then k x (node ns pod)   the Evict calls in order (node = 1-based index)
             then n x (nodeDetector prodDetector)   -1 = none, else state*1000000 + consAbn*1000 + consNorm *)
 From Coq Require Import String List ZArith Bool.
 From Verif Require Import Lib.Wire C18.Model C18.Spec.
@@ -15,8 +15,8 @@ Open Scope Z_scope.
 
 Definition dec_pod (l : list Z) : pod * list Z :=
   match l with
-  | a :: b :: m :: cp :: me :: f :: e :: t => (mkPod a b (zb m) cp me f (zb e), t)
-  | _ => (mkPod 0 0 false 0 0 0 false, [])
+  | a :: n :: b :: m :: cp :: me :: f :: e :: t => (mkPod a n b (zb m) cp me f (zb e), t)
+  | _ => (mkPod 0 0 0 false 0 0 0 false, [])
   end.
 Definition dec_nround (l : list Z) : nround * list Z :=
   match l with
@@ -55,7 +55,7 @@ Definition det_code (o : option det) : Z :=
 
 Definition enc_round (n : nat) (r : list ev * dstate) : list Z :=
   let '(evs, (dn, dp)) := r in
-  Z.of_nat (length evs) :: flat_map (fun e => [fst e; snd e]) evs
+  Z.of_nat (length evs) :: flat_map (fun e => [fst e; fst (snd e); snd (snd e)]) evs
   ++ flat_map (fun i => [det_code (dget (Z.of_nat i) dn); det_code (dget (Z.of_nat i) dp)]) (seq 1 n).
 
 Definition run_case (inp : list Z) : list Z :=
@@ -67,7 +67,7 @@ Fixpoint dec_evs (k : nat) (l : list Z) : list ev * list Z :=
   match k with
   | O => ([], l)
   | S k' => match l with
-            | x :: p :: t => let '(evs, r) := dec_evs k' t in ((x, p) :: evs, r)
+            | x :: n :: p :: t => let '(evs, r) := dec_evs k' t in ((x, (n, p)) :: evs, r)
             | _ => ([], [])
             end
   end.
